@@ -694,6 +694,8 @@ impl MaybeMovePush for ErrOnFirst {
     type Err = ();
 
     fn push(&mut self, _mv: Move) -> Result<(), ()> {
+        #[cfg(owlchess_verif)]
+        crate::verif::note_first_legal(_mv);
         Err(())
     }
 }
